@@ -3,7 +3,7 @@ From Coq Require Import String ZArith List Bool.
 From XV Require Import Base.Label Base.LSet Base.ODict Base.Attr Base.Outcome Model.Hypergraph
   Model.HgCheck Model.Copy Model.Derived Proofs.HgViews Proofs.HgInv Proofs.HgStep Proofs.Build Proofs.DerivedProofs
   Proofs.NoNoneProofs Proofs.DualProofs Proofs.UnionProofs Proofs.ComplementProofs Proofs.MaxSimplicesProofs
-  Model.Stats Model.Graph Proofs.GraphProofs Proofs.LccProofs Proofs.HgErrors Proofs.RelabelProofs.
+  Model.Stats Model.Graph Proofs.GraphProofs Proofs.LccProofs Proofs.HgErrors Proofs.RelabelProofs Proofs.CleanupProofs.
 Import ListNotations.
 Open Scope Z_scope.
 
@@ -131,6 +131,36 @@ Theorem C19_relabel_isomorphism : forall la s, Inv s ->
 Proof. exact relabel_spec. Qed.
 Print Assumptions C19_relabel_isomorphism.
 
+(* THE CLEANUP GUARANTEES, all at once, for every flag combination and every state satisfying the invariant:
+   whenever cleanup returns, the network has no repeated edges (unless multiedges are allowed), no singleton
+   edges (unless allowed), no isolated nodes (unless allowed), is connected (if requested) and is labelled
+   0..n-1 / 0..m-1 (if requested).  Flags as in the model: true = the Python argument is True. *)
+Theorem C19_cleanup_guarantees : forall iso sing multi conn relabel s, Inv s -> NoNone s ->
+  out_of (cleanup iso sing multi conn relabel s) = Ok ->
+  let t := st_of (cleanup iso sing multi conn relabel s) in
+  Inv t /\
+  (multi = false -> NoMulti t) /\
+  (sing = false -> NoSingletons t) /\
+  (iso = false -> NoIsolates t) /\
+  (conn = true -> Connected t) /\
+  (relabel = true ->
+     nkeys t = map (fun i => LInt (Z.of_nat i)) (seq 0 (length (nkeys t))) /\
+     ekeys t = map (fun j => LInt (Z.of_nat j)) (seq 0 (length (ekeys t)))).
+Proof. exact cleanup_guarantees. Qed.
+Print Assumptions C19_cleanup_guarantees.
+
+(* the stages only delete: after the duplicate merge, every remaining edge is an edge of the merged network
+   with the same members (before relabelling) *)
+Theorem C19_cleanup_stages_only_delete : forall s, Inv s ->
+  SubTable (st_of (remove_edges_from (Hypergraph.singletons s) s)) s /\
+  (forall e, get e (h_edge (st_of (remove_nodes_from (Hypergraph.isolates s) false true s))) = get e (h_edge s)) /\
+  (forall c, first_longest (Hypergraph.components s) = Some c -> SubTable (st_of (largest_connected_inplace s)) s).
+Proof.
+  intros s I. split; [apply (singles_stage s I)|]. split; [apply (isolates_stage s I)|].
+  intros c Hc. apply (lcc_stage s c I Hc).
+Qed.
+Print Assumptions C19_cleanup_stages_only_delete.
+
 (* the premises Inv and NoNone hold at every state reachable by an admissible, expressible history *)
 Theorem C19_premises_reachable : forall ops,
   admissible_history hg_empty ops -> expressible_history ops ->
@@ -145,3 +175,12 @@ Example C19_nonvacuous :
   keys (h_node (st_of (cleanup_copy false false false true true s))) = [LInt 0; LInt 1; LInt 2; LInt 3].
 Proof. vm_compute. repeat split. Qed.
 Print Assumptions C19_nonvacuous.
+
+(* the cleanup theorem is not vacuous: a reachable state on which cleanup returns and changes the network *)
+Example C19_cleanup_premises_met :
+  let s := run [OAddEdgesFrom (EB1 [[LInt 1; LInt 2; LInt 3]; [LInt 3; LInt 2; LInt 1]; [LInt 4]; [LInt 5; LInt 6]]) []; OAddNode (LInt 9) []] hg_empty in
+  out_of (cleanup false false false true true s) = Ok /\
+  keys (h_node (st_of (cleanup false false false true true s))) = [LInt 0; LInt 1; LInt 2] /\
+  keys (h_edge (st_of (cleanup false false false true true s))) = [LInt 0].
+Proof. vm_compute. repeat split. Qed.
+Print Assumptions C19_cleanup_premises_met.
